@@ -61,12 +61,27 @@ impl FileStack {
     }
 
     fn add_files(&mut self, paths: &[PathBuf], reports: &mut ReportCollection) {
+        self.add_files_impl(paths, reports, &mut HashSet::new());
+    }
+
+    fn add_files_impl(
+        &mut self,
+        paths: &[PathBuf],
+        reports: &mut ReportCollection,
+        visited_dirs: &mut HashSet<PathBuf>,
+    ) {
         for path in paths {
             if path.is_dir() {
+                // Each directory is only visited once. (Symbolic links may
+                // introduce cycles.)
+                match fs::canonicalize(path) {
+                    Ok(dir) if visited_dirs.insert(dir.clone()) => {}
+                    _ => continue,
+                }
                 // Handle directories on a best effort basis only.
                 if let Ok(entries) = fs::read_dir(path) {
                     let paths: Vec<_> = entries.flatten().map(|x| x.path()).collect();
-                    self.add_files(&paths, reports);
+                    self.add_files_impl(&paths, reports, visited_dirs);
                 }
             } else if let Some(extension) = path.extension() {
                 // Add Circom files to file stack.
